@@ -171,3 +171,21 @@ pub fn run(seed: u64, consts_path: &str, thorough: bool, out: &mut Vec<Value>) {
         out.push(ev);
     }
 }
+
+/// zkexec poseidon-consts --out FILE : the parameter sets the library generates at run time (the construction
+/// rln::hashers uses for its global hasher: Poseidon::from(&ROUND_PARAMS)), in the layout of
+/// spec/poseidon_constants.json: {T, RF, RP, C[idx][k], M[idx][i][j]} with values as little-endian bytes.
+/// Grain.tla (TLC) decides whether they are the stream the parameter-generation specification produces.
+pub fn dump_consts() -> Value {
+    let params = rln::hashers::ROUND_PARAMS;
+    let ps = zerokit_utils::Poseidon::<Fr>::from(&params);
+    let rp = ps.get_parameters();
+    json!({
+        "T": rp.iter().map(|r| r.t).collect::<Vec<_>>(),
+        "RF": rp.iter().map(|r| r.n_rounds_f).collect::<Vec<_>>(),
+        "RP": rp.iter().map(|r| r.n_rounds_p).collect::<Vec<_>>(),
+        "skip": rp.iter().map(|r| r.skip_matrices).collect::<Vec<_>>(),
+        "C": rp.iter().map(|r| r.c.iter().map(|f| le(&fr_big(f))).collect::<Vec<_>>()).collect::<Vec<_>>(),
+        "M": rp.iter().map(|r| r.m.iter().map(|row| row.iter().map(|f| le(&fr_big(f))).collect::<Vec<_>>()).collect::<Vec<_>>()).collect::<Vec<_>>(),
+    })
+}
